@@ -17,7 +17,7 @@
 
 enum { F_LATE_HANDLES, F_SLICED, F_REMOVE_MIDDLE, F_DEAD_REFUSED, F_STATIC_FULL, F_GREW, F_CLEAR_LIVE, F_DUP_MIN,
        F_STATIC_HANDLE_REFUSED, F_REMOVE_ROOT, F_REMOVE_LAST, F_EMPTY_POP, F_CMP_THREE_WAY, F_CMP_BOOLEAN, F_CMP_DIFFERENCE,
-       F_CMP_EXTREMES };
+       F_CMP_EXTREMES, F_REMOVE_BY_COPY };
 
 struct elem {
     uint8_t bytes[MAX_ITEM];
@@ -464,8 +464,17 @@ static void run_case(uint64_t case_idx) {
             size_t ix_before = hd->node.current_index;
             mon_poison_last_error(&mon_case_rng);
             s_op = "remove";
-            int rc = aws_priority_queue_remove(&s_q, out, &hd->node);
-            mon_sample(" remove(h%zu:%s)%s", h, hd->state == 1 ? "live" : "dead", rc ? "=ERR" : "");
+            /* the parameter is a pointer to const: a by-value copy of the handle names the same element; the handle
+             * registered at push time is the one that must end up marked */
+            const struct aws_priority_queue_node node_copy = hd->node;
+            bool by_copy = mon_below(&mon_case_rng, 4) == 0;
+            int rc = aws_priority_queue_remove(&s_q, out, by_copy ? &node_copy : &hd->node);
+            mon_sample(" remove(h%zu:%s%s)%s", h, hd->state == 1 ? "live" : "dead", by_copy ? ",copy" : "", rc ? "=ERR" : "");
+            if (by_copy) {
+                mon_flag(F_REMOVE_BY_COPY);
+                MON_CHECK(node_copy.current_index == ix_before, "C06:const-handle-written",
+                          "remove wrote through its pointer-to-const handle argument (index %zu -> %zu)", ix_before, node_copy.current_index);
+            }
             if (hd->state == 1) {
                 free(snap);
                 if (rc != AWS_OP_SUCCESS) {
@@ -551,7 +560,8 @@ int main(int argc, char **argv) {
     static const char *names[] = {"handle_array_created_late", "sliced_swap_item_gt_128", "remove_middle", "dead_handle_refused",
                                   "static_full_refused", "dynamic_growth", "clear_with_live_handles", "duplicate_min_keys",
                                   "static_handle_refused", "remove_root", "remove_last", "pop_on_empty", "comparator_three_way",
-                                  "comparator_boolean_a_gt_b", "comparator_scaled_difference", "comparator_INT_MIN_INT_MAX"};
+                                  "comparator_boolean_a_gt_b", "comparator_scaled_difference", "comparator_INT_MIN_INT_MAX",
+                                  "remove_by_copied_handle"};
     for (int i = 0; i < (int)(sizeof(names) / sizeof(names[0])); ++i) {
         mon_flag_name(i, names[i]);
     }
